@@ -52,7 +52,7 @@ m = {
     ],
     "checks": checks,
     "not_applicable": [{"property_id": k, "reason": v} for k, v in sorted(NOT_CLAIMED.items()) if k not in PROPS],
-    "notes": "See DESIGN.md. Known findings: known_findings.txt.",
+    "notes": "See DESIGN.md. Known findings and fixed defects: known_findings.txt. /repo commit 9400e73 ('round 1: uncommitted hook changes (driver)') is NOT a hook: it is an unguarded seeded change (seeded/C14/r3-2) that an interrupted bin/seeded run left in the working tree; it violated C14 and C15 and is reverted by the fix commit b108dc6 (DESIGN.md 11.7). The hooks are exactly hooks.source_commits.",
 }
 json.dump(m, open(os.path.join(VERIF, "MANIFEST.json"), "w"), indent=1)
 print("MANIFEST.json:", len(checks), "checks,", len(m["not_applicable"]), "not claimed")
